@@ -55,7 +55,7 @@ def _max_clue_boards(rng, shapes):
 
 def families(tier, rng):
     th = tier == "thorough"
-    yield from _max_clue_boards(rng, [(3, 3), (3, 4), (4, 3), (4, 4)] if th else [(3, 4), (4, 4)])
+    yield from _max_clue_boards(rng, [(3, 3), (3, 4), (4, 3), (4, 4)] if th else [(3, 4)])   # 4x4 and larger: tier1_problems (glue tie)
     for (h, w) in [(1, 1), (1, 2), (2, 1), (1, 3), (3, 1), (2, 2), (1, 4), (4, 1), (2, 3), (3, 2), (1, 5), (5, 1)]:
         parts = list(L.region_partitions(h, w))
         for rooms in (parts if th else L.sample(rng, parts, 12)):
